@@ -512,7 +512,61 @@ func propC06Latest(c *Ctx, lt *ssa.Function, fStart *types.Var) {
 		if d > 8 {
 			return []leaf{{v, at}}
 		}
+		// a member of a position handed out as one struct value (local.num with local, found, err := t.position(pg))
+		memberOf := func(sv ssa.Value, fi int) []leaf {
+			var out []leaf
+			for _, sl := range expand(sv, at, d+1) {
+				if _, isK := sl.v.(*ssa.Const); isK {
+					out = append(out, sl) // the zero position of a not-found / error return
+					continue
+				}
+				u, ok := sl.v.(*ssa.UnOp)
+				if !ok || u.Op != token.MUL {
+					return nil
+				}
+				al, ok := u.X.(*ssa.Alloc)
+				if !ok {
+					return nil
+				}
+				var part ssa.Value
+				for _, ref := range *al.Referrers() {
+					fa, ok := ref.(*ssa.FieldAddr)
+					if !ok || fa.Field != fi {
+						continue
+					}
+					for _, sc := range scanCells {
+						if stripConv(sc) == ssa.Value(fa) {
+							part = fa
+						}
+					}
+					for _, r2 := range *fa.Referrers() {
+						if s2, ok := r2.(*ssa.Store); ok && s2.Addr == ssa.Value(fa) && part == nil {
+							part = s2.Val
+						}
+					}
+				}
+				if part == nil {
+					return nil
+				}
+				out = append(out, leaf{part, sl.at})
+			}
+			return out
+		}
 		switch x := v.(type) {
+		case *ssa.Field:
+			if out := memberOf(x.X, x.Field); out != nil {
+				return out
+			}
+		case *ssa.UnOp:
+			if fa, ok := x.X.(*ssa.FieldAddr); ok && x.Op == token.MUL {
+				if al, ok := fa.X.(*ssa.Alloc); ok {
+					if w := cellValue(al); w != nil {
+						if out := memberOf(w, fa.Field); out != nil {
+							return out
+						}
+					}
+				}
+			}
 		case *ssa.Phi:
 			var out []leaf
 			for _, e := range x.Edges {
@@ -564,6 +618,14 @@ func propC06Latest(c *Ctx, lt *ssa.Function, fStart *types.Var) {
 						}
 					}
 				}
+				// what the caller does after this very return of the helper (scenario.go): a value handed back on a
+				// return after which `at` is not reached is not used there (`case err == nil && !found: … default: return local.num, …`)
+				if at != nil && at.Parent() == call.Parent() {
+					sc := &retScenario{reg: lreg, call: call, vals: vals}
+					if hit, _ := reach(siteOf(call), isInstr(at), sc.cuts()); !hit {
+						continue
+					}
+				}
 				out = append(out, expand(vals[x.Index], ret, d+1)...)
 			}
 			return out
@@ -587,6 +649,14 @@ func propC06Latest(c *Ctx, lt *ssa.Function, fStart *types.Var) {
 		}
 		nret++
 		nums, hashes := expand(numV, sr.Ret, 0), expand(hashV, sr.Ret, 0)
+		if debugOn() {
+			for _, l := range nums {
+				fmt.Printf("DEBUG R6.4 ret#%d num leaf %T %s cell=%v\n", nret, l.v, sym(l.v), cellOf(l.v) != nil)
+			}
+			for _, l := range hashes {
+				fmt.Printf("DEBUG R6.4 ret#%d hash leaf %T %s cell=%v\n", nret, l.v, sym(l.v), cellOf(l.v) != nil)
+			}
+		}
 		ok, detail := len(nums) > 0 && len(hashes) > 0, ""
 		for _, nl := range nums {
 			if !ok {
@@ -797,7 +867,37 @@ func propC06Latest(c *Ctx, lt *ssa.Function, fStart *types.Var) {
 			}
 		}
 		reachable := func(at *ssa.Return, cuts *Cuts) bool {
-			return at != nil && lreg.ReachFromEntry(at, cuts)
+			if at == nil {
+				return false
+			}
+			// the query in a helper called from the function of `at`: judged per return of the helper that the
+			// assumption leaves reachable, with what the caller does after that very return (scenario.go) –
+			// `local, found, err := t.position(pg)` answers (zero, false, nil) when there is no row
+			if scanErr != nil && scanErr.Parent() != at.Parent() {
+				h := scanErr.Parent()
+				if call, ok := lreg.site[h].(*ssa.Call); ok && call.Parent() == at.Parent() {
+					any := false
+					for _, r := range returnsOf(h) {
+						if hit, _ := reach(entrySite(h), isInstr(r), cuts); !hit {
+							continue
+						}
+						vals := append([]ssa.Value{}, returnValues(r)...)
+						if n := len(vals); n > 0 && isErrorType(vals[n-1].Type()) && !isNilConst(vals[n-1]) {
+							if st := newPathFacts(h).At(r); definitelyNonNilError(vals[n-1], nil) || (st != nil && st.knownNonNil(vals[n-1])) {
+								if _, g := (&retScenario{reg: lreg, call: call, vals: vals}).errFact(extractOf(call, n-1)); g == nil {
+									vals[n-1] = nonNilErrorMarker(h) // some non-nil error that is no sentinel
+								}
+							}
+						}
+						sc := &retScenario{reg: lreg, call: call, vals: vals}
+						if hit, _ := reach(siteOf(call), isInstr(at), sc.cuts()); hit {
+							any = true
+						}
+					}
+					return any
+				}
+			}
+			return lreg.ReachFromEntry(at, cuts)
 		}
 		// the query did not succeed: the scanned row must not be returned
 		c1 := liftBoolHelpers(lreg, newCuts().addEdges(isNil), nil)
